@@ -736,13 +736,7 @@ pub fn generate_expr_code(
                         create_name_lookup(compiler, l.clone(), atom, true)
                             .map(|f| Ok(CompiledCode(l.clone(), f)))
                             .unwrap_or_else(|_| {
-                                // With the integer fix, values made by macros or
-                                // embedded from files arrive as strings or
-                                // numbers, so an atom here is a name from the
-                                // source whatever bytes it is spelled with.
-                                if opts.dialect().strict
-                                    && (printable(atom, false) || opts.dialect().int_fix)
-                                {
+                                if opts.dialect().strict && printable(atom, false) {
                                     // Finally enable strictness for variable names.
                                     // This is possible because the modern macro system
                                     // takes great care to preserve as much information
